@@ -395,6 +395,20 @@ class WithOptions(Evaluatable[B]):
             else mix(self.options, options)  # type: ignore
         )
 
+    def _preset(self, key: str, options: Options) -> bool:
+        """Whether the value under key is fully determined by the pre-set options.
+
+        A pre-set section is merged with the provided one key by key, so it
+        only hides the key if the caller does not provide that section.
+        """
+        if not _key_exists(key, self.options):
+            return False
+        if not _key_exists(key, options):
+            return True
+        return self.force and not isinstance(
+            get_dotted_key(key, self.options), Mapping
+        )
+
     def evaluate(self, options: Options) -> B:
         """Evaluate the wrapped Evaluatable object with the provided options."""
         return self.evaluatable.evaluate(self._options(options))
@@ -408,10 +422,7 @@ class WithOptions(Evaluatable[B]):
         return {
             key
             for key in self.evaluatable.keys(self._options(options))
-            if not (
-                _key_exists(key, self.options)
-                and (self.force or not _key_exists(key, options))
-            )
+            if not self._preset(key, options)
         }
 
     def explain(self, options: Optional[Options] = None) -> Set[str]:
@@ -420,10 +431,7 @@ class WithOptions(Evaluatable[B]):
         return {
             key
             for key in self.evaluatable.explain(self._options(options))
-            if not (
-                _key_exists(key, self.options)
-                and (self.force or not _key_exists(key, options))
-            )
+            if not self._preset(key, options)
         }
 
     def __repr__(self) -> str:
